@@ -204,6 +204,66 @@ def main():
                 h.count("workflow", "allsky")
                 check_dir(h, tag, d, short, lines, py, expect_levels=depth, full=True)
                 shutil.rmtree(d, ignore_errors=True)
+        # ---- the command-line workflows: `toasty tile-study` / `toasty tile-allsky`, then `toasty cascade`
+        try:
+            from toasty import cli
+            from PIL import Image as PImage
+            import contextlib
+            import io
+            import math
+
+            def run_cli(args):
+                with warnings.catch_warnings():
+                    warnings.simplefilter("ignore")
+                    with contextlib.redirect_stdout(io.StringIO()), contextlib.redirect_stderr(io.StringIO()):
+                        cli.entrypoint(args)
+            for (w, hh) in ([(200, 100), (300, 513)] if not h.deep else [(200, 100), (256, 256), (300, 513), (700, 1025)]):
+                k += 1
+                d = os.path.join(root, f"clistudy{k}")
+                arr = np.random.RandomState(k).randint(1, 255, size=(hh, w, 3)).astype(np.uint8)
+                src = os.path.join(root, f"clisrc{k}.png")
+                PImage.fromarray(arr, "RGB").save(src)
+                p2n = 256
+                while p2n < max(w, hh):
+                    p2n *= 2
+                lv = int(math.log2(p2n // 256))
+                tag = f"cli-study/LsYsYX/png/{w}x{hh}"
+                try:
+                    run_cli(["tile-study", "--outdir", d, "--placeholder-thumbnail", src])
+                    if lv > 0:
+                        run_cli(["cascade", "--start", str(lv), "--parallelism", "1", d])
+                except BaseException as e:  # noqa  (argparse exits)
+                    h.violation("crash:cli-study", f"{tag}: `toasty tile-study` / `toasty cascade` raised {type(e).__name__}: {e}", input=tag)
+                    h.case((tag,))
+                    continue
+                h.case((tag,))
+                h.count("workflow", "cli-study")
+                gx0, gy0 = (p2n - w) // 2, (p2n - hh) // 2
+                canvas = np.zeros((p2n, p2n, 3), dtype=np.uint8)
+                canvas[gy0:gy0 + hh, gx0:gx0 + w] = arr
+                check_dir(h, tag, d, "LsYsYX", lines, py, expect_levels=lv, full=False, canvas=canvas)
+                shutil.rmtree(d, ignore_errors=True)
+            skysrc = os.path.join(root, "clisky.png")
+            PImage.fromarray(sky, "RGB").save(skysrc)
+            for depth in ((0, 1, 2) if h.deep else (1, 2)):
+                k += 1
+                d = os.path.join(root, f"clisky{k}")
+                tag = f"cli-allsky/LsYsYX/png/depth{depth}"
+                try:
+                    run_cli(["tile-allsky", "--outdir", d, "--placeholder-thumbnail", "--projection", "plate-carree", "--parallelism", "1", skysrc, str(depth)])
+                    if depth > 0:
+                        run_cli(["cascade", "--start", str(depth), "--parallelism", "1", d])
+                except BaseException as e:  # noqa
+                    h.violation("crash:cli-allsky", f"{tag}: `toasty tile-allsky` / `toasty cascade` raised {type(e).__name__}: {e}", input=tag)
+                    h.case((tag,))
+                    continue
+                h.case((tag,))
+                h.count("workflow", "cli-allsky")
+                check_dir(h, tag, d, "LsYsYX", lines, py, expect_levels=depth, full=True)
+                shutil.rmtree(d, ignore_errors=True)
+        except Exception as e:
+            import traceback
+            h.violation("cli:crash", f"the command-line workflows raised {type(e).__name__}: {e}", input="cli", observed=traceback.format_exc()[-600:])
         # ---- tile_fits: TAN and TOAST, with reuse histories
         sizes = [(600, 600), (200, 300)] + ([(1100, 700), (300, 200)] if h.deep else [])
         for (w, hh) in sizes:
